@@ -385,15 +385,21 @@ func snap(sb *strings.Builder, v reflect.Value, depth int) {
 		}
 		sb.WriteByte('}')
 	case reflect.Float64, reflect.Float32:
+		if v.Type().PkgPath() != "" || v.Kind() == reflect.Float32 {
+			sb.WriteString(v.Type().String() + ":")
+		}
 		sb.WriteString(strconv.FormatFloat(v.Float(), 'g', -1, 64))
 		if math.Signbit(v.Float()) && v.Float() == 0 {
 			sb.WriteString("(-0)")
 		}
 	case reflect.String:
+		if v.Type().PkgPath() != "" {
+			sb.WriteString(v.Type().String() + ":")
+		}
 		sb.WriteString(strconv.QuoteToASCII(v.String()))
 	case reflect.Bool:
 		sb.WriteString(strconv.FormatBool(v.Bool()))
 	default:
-		fmt.Fprintf(sb, "%v", v)
+		fmt.Fprintf(sb, "%s:%v", v.Type(), v)
 	}
 }
